@@ -235,6 +235,44 @@ theorem merge_keeps_identity (st : St) (s : Src) (nw : Bool) (t : Nat) (a b : Op
         rw [hold] at h
         exact absurd h.1 (by simp)
 
+/-- **merge_noload_keeps_identity**: the same for `load=False` — the instance created or
+    updated without SQL sits under the source's full key, token included, and the
+    instances of the same primary key under other tokens are untouched (since fix 92da004
+    `state.identity_token` is set from the key, so a later flush keeps it there: `flush`
+    in the model never moves an instance to another token). -/
+theorem merge_noload_keeps_identity (st : St) (s : Src) (nw : Bool) (t : Nat) (a b : Option Int) (d : Bool)
+    (h : (mergeNoLoad st s).2 = .merged nw t a b d) :
+    t = s.tok ∧ ((mergeNoLoad st s).1.objs s.pk s.tok).isSome = true ∧
+    ∀ u, u ≠ s.tok → (mergeNoLoad st s).1.objs s.pk u = st.objs s.pk u := by
+  unfold mergeNoLoad at h ⊢
+  cases hn : st.new s.pk with
+  | some _ => simp [hn] at h
+  | none =>
+    simp only [hn] at h ⊢
+    by_cases hp : s.persistent = true
+    · simp only [hp, Bool.not_true, Bool.false_eq_true, if_false] at h ⊢
+      cases ho : st.objs s.pk s.tok with
+      | some o =>
+        simp only [ho, outOf, Out.merged.injEq] at h
+        refine ⟨h.2.1.symm, by simp [putObj], ?_⟩
+        intro u hu; simp [putObj, hu]
+      | none =>
+        by_cases hm : s.modified = true
+        · simp [ho, hm] at h
+        · simp only [ho, hm, Bool.false_eq_true, if_false, outOf, Out.merged.injEq] at h ⊢
+          refine ⟨h.2.1.symm, by simp [putObj], ?_⟩
+          intro u hu; simp [putObj, hu]
+    · simp [hp] at h
+
+/-- a flush never moves an instance to another identity token -/
+theorem flush_keeps_tokens (n : Nat) (st : St) (k t : Nat) (hnew : st.new k = none) :
+    ((step n st .flush).1.objs k t).isSome = (st.objs k t).isSome := by
+  simp only [step]
+  by_cases hk : k < n
+  · simp only [hk, if_true, hnew]
+    cases st.objs k t <;> rfl
+  · simp only [hk, if_false]
+
 /-! ## non-vacuity -/
 
 /-- partial source onto a loaded, modified object: loaded attribute copied, the other
